@@ -241,6 +241,16 @@ class BareCriteria:
         return cls([True], [])
 
 
+def with_truthiness(cls, truth):
+    """User objects may be falsy (a container-like criteria that is empty when fresh, a move with __bool__): the
+    protocol says nothing about truthiness, so the driver must not test it."""
+    if truth == "len0":
+        return type(cls.__name__ + "Len0", (cls,), {"__len__": lambda self: 0})
+    if truth == "boolfalse":
+        return type(cls.__name__ + "BoolFalse", (cls,), {"__bool__": lambda self: False})
+    return cls
+
+
 class CountingDistribution:
     """Wraps the momentum distribution callable (a constructor argument of the
     Hamiltonian move) so that the harness sees the freshly drawn momenta."""
@@ -313,6 +323,7 @@ def build_move(spec: dict, env: MoveEnv, path: str):
     if t == "bare":
         log = []
         bare_cls = {"plain": BareMove, "eq_unhashable": BareMoveEqUnhashable, "eq_hash": BareMoveEqHash}[spec.get("equality", "plain")]
+        bare_cls = with_truthiness(bare_cls, spec.get("truth"))
         mv = bare_cls(spec.get("results", [True]), log, spec.get("kind", "disp"), spec.get("step", 0.05))
         w.bare_logs[path] = log
         w.bare_objs[path] = mv
@@ -514,7 +525,7 @@ class World:
             cname = entry.get("criteria")
             if cname == "bare" or (cname is None and entry["move"]["type"] == "bare"):
                 log = []
-                crit = BareCriteria(entry.get("verdicts", [True]), log)
+                crit = with_truthiness(BareCriteria, entry.get("criteria_truth"))(entry.get("verdicts", [True]), log)
                 self.bare_logs[mname + "#criteria"] = log
                 self.bare_objs[mname + "#criteria"] = crit
             elif cname is not None:
